@@ -73,3 +73,17 @@ func VerifC13LookupV4Nss(r *Resolver, q middleware.Queryer, ctx context.Context,
 	servers.RUnlock()
 	return n, err
 }
+
+// VerifC13LookupV6Nss runs the real Resolver.lookupV6Nss (the detached IPv6
+// name-server address job) for hosts, with q answering the AAAA sub-lookups.
+func VerifC13LookupV6Nss(r *Resolver, q middleware.Queryer, ctx context.Context, zone string, hosts []string) {
+	old := r.queryer.Load()
+	r.queryer.Store(&q)
+	defer r.queryer.Store(old)
+	set := hostSet{}
+	for _, h := range hosts {
+		set[h] = struct{}{}
+	}
+	servers := &authority.Servers{Zone: zone}
+	r.lookupV6Nss(ctx, dns.Question{Name: zone, Qtype: dns.TypeNS, Qclass: dns.ClassINET}, servers, hostSet{}, set, true)
+}
